@@ -524,7 +524,31 @@ fn unsafe_gettid() -> i32 {
 
 // ---------------------------------------------------------------- master
 
+/// Cost, right now on this machine, of what the readers legitimately do with a declared length
+/// of 4 GiB: allocate and fill it. In this VM that takes between 1 s and more than a minute of
+/// CPU time depending on the state of the (hypervisor-backed) memory and on the load.
+fn calibrate_fill() -> f64 {
+    let tid = unsafe_gettid();
+    let t0 = thread_cpu_seconds(tid).unwrap_or(0.0);
+    let n: usize = 4usize << 30;
+    let mut v: Vec<u8> = Vec::new();
+    if v.try_reserve_exact(n).is_ok() {
+        v.resize(n, 1);
+        std::hint::black_box(&v);
+    }
+    drop(v);
+    (thread_cpu_seconds(tid).unwrap_or(0.0) - t0).max(0.0)
+}
+
 pub fn run(cfg: &Cfg) -> Outcome {
+    if cfg.has_flag("--calibrate") {
+        let t = calibrate_fill();
+        let _ = std::fs::write(format!("{}/calibrate.txt", cfg.out), format!("{}", t));
+        let mut o = Outcome::new(Local::new(), "calibration");
+        o.min_evaluations = 0;
+        o.min_classes = 0;
+        return o;
+    }
     if cfg.has_flag("--worker") {
         let mut o = worker(cfg);
         o.min_evaluations = 0;
@@ -634,18 +658,27 @@ pub fn run(cfg: &Cfg) -> Outcome {
     cands.sort();
     cands.dedup();
     for (case, target, gen) in cands {
+        // calibrate immediately before: the budget of the isolated re-run is at least ten times the
+        // present cost of filling 4 GiB (a case performs at most a handful of such fills)
+        let _ = std::fs::remove_file(format!("{}/calibrate.txt", cfg.out));
+        let _ = std::process::Command::new(&exe).env("GLIBC_TUNABLES", "glibc.malloc.hugetlb=1")
+            .args(["C05", "--calibrate", "--out", &cfg.out, "--result", "calibrate.json"])
+            .stderr(std::process::Stdio::null()).stdout(std::process::Stdio::null()).status();
+        let t_cal: f64 = std::fs::read_to_string(format!("{}/calibrate.txt", cfg.out)).ok().and_then(|t| t.trim().parse().ok()).unwrap_or(0.0);
+        let alone_budget = (2.0 * cpu_budget()).max(10.0 * t_cal);
+        total_local.note(format!("hang candidate case {}: 4 GiB fill costs {:.1} s CPU right now; budget alone {:.0} s", case, t_cal, alone_budget));
         let progress = format!("{}/confirm.progress", cfg.out);
         let _ = std::fs::remove_file(format!("{}.hang", progress));
         let mut cmd = std::process::Command::new(&exe);
         cmd.env("GLIBC_TUNABLES", "glibc.malloc.hugetlb=1");
-        cmd.env("VERIF_C05_BUDGET", format!("{}", 2.0 * cpu_budget()));
+        cmd.env("VERIF_C05_BUDGET", format!("{}", alone_budget));
         cmd.args(["C05", "--worker", "--seed", &cfg.seed.to_string(), "--out", &cfg.out, "--result", "confirm_worker.json", "--from", &case.to_string(), "--to", &(case + 1).to_string(), "--step", "1", "--progress", &progress]);
         if allow_huge { cmd.arg("--allow-huge"); }
         let st = cmd.stderr(std::process::Stdio::null()).stdout(std::process::Stdio::null()).status();
         let hung_again = std::path::Path::new(&format!("{}.hang", progress)).exists();
         match st {
             Ok(_) if hung_again => {
-                total_local.violation(format!("hang|{}|gen={}", target, gen), format!("{} exceeded the CPU budget of {} s on case {} (and {} s when re-run alone)", target, cpu_budget(), case, 2.0 * cpu_budget()), json!({"seed": cfg.seed, "stream": 5, "case": case, "target": target}));
+                total_local.violation(format!("hang|{}|gen={}", target, gen), format!("{} exceeded the CPU budget of {} s on case {} (and {:.0} s when re-run alone; filling 4 GiB cost {:.1} s at that moment)", target, cpu_budget(), case, alone_budget, t_cal), json!({"seed": cfg.seed, "stream": 5, "case": case, "target": target}));
             }
             Ok(_) => {
                 total_local.count("cases_slow_only_under_contention", 1);
